@@ -147,7 +147,10 @@ where
 	let mut is_single = None;
 
 	while let Some(frame_or_err) = limited_body.frame().await {
-		let frame = frame_or_err.map_err(HttpError::Stream)?;
+		// The body turned out to be bigger than allowed (no or a wrong `Content-Length`).
+		let frame = frame_or_err.map_err(|e| {
+			if e.is::<http_body_util::LengthLimitError>() { HttpError::TooLarge } else { HttpError::Stream(e) }
+		})?;
 		let Some(data) = frame.data_ref() else {
 			continue;
 		};
